@@ -420,6 +420,14 @@ func (g *gen) str(d int) *exprT {
 			// still has the type string that the conversion left on it (F03-14)
 			return conv("string", bin([]string{"add", "sub", "or"}[r.Intn(3)], g.runeLit(), lit("int", fmt.Sprint(r.Intn(20)))))
 		}
+		if r.Intn(4) == 0 {
+			// string(<integer constant>): code points outside the int32 range (F03-22), typed and untyped
+			e := g.intLit(40)
+			if r.Intn(3) == 0 {
+				e = conv([]string{"int64", "uint32", "int32", "uint64"}[r.Intn(4)], e)
+			}
+			return conv("string", e)
+		}
 		return conv("string", g.runeLit())
 	}
 	return g.str(d - 1)
